@@ -107,11 +107,11 @@ func (s Sym) Key() string {
 	return k
 }
 
-func MkBool(b bool) Const   { return Const{V: constant.MakeBool(b)} }
-func MkInt(i int64) Const   { return Const{V: constant.MakeInt64(i)} }
+func MkBool(b bool) Const { return Const{V: constant.MakeBool(b)} }
+func MkInt(i int64) Const { return Const{V: constant.MakeInt64(i)} }
 
 // MkByte is the tagged constant a step function is specialised for.
-func MkByte(b int) Const { return Const{V: constant.MakeInt64(int64(b)), Tag: "BYTE"} }
+func MkByte(b int) Const    { return Const{V: constant.MakeInt64(int64(b)), Tag: "BYTE"} }
 func Param(name string) Sym { return Sym{Op: "param", Name: name} }
 
 // ---------- path state ----------
@@ -222,10 +222,10 @@ func New(cfg Config) *Interp {
 }
 
 type frame struct {
-	fn   *ssa.Function
-	env  map[ssa.Value]Val
-	prev *ssa.BasicBlock
-	cnt  map[*ssa.BasicBlock]int
+	fn     *ssa.Function
+	env    map[ssa.Value]Val
+	prev   *ssa.BasicBlock
+	cnt    map[*ssa.BasicBlock]int
 	defers []Effect
 }
 
